@@ -155,6 +155,15 @@ class Model:
         if a.shape or b.shape:
             raise ModelError("non-scalar condition")
         if op in ("eq", "ne"):
+            if a == b:
+                # exact equality is only robust when it holds by construction (same recipe, or literals); a
+                # contraction that vanishes identically is 0.0 here and 1e-17 in another summation order
+                def literal(r_):
+                    return isinstance(r_, list) and r_ and (r_[0] in ("lit", "pylit", "zero") or (r_[0] == "neg" and literal(r_[1])))
+                if not (c[1] == c[2] or (literal(c[1]) and literal(c[2]))):
+                    self.margin = 0.0
+            else:
+                self.margin = min(getattr(self, "margin", np.inf), float(abs(a - b)))
             return bool(a == b) if op == "eq" else bool(a != b)
         a, b = np.real(a), np.real(b)
         self.margin = min(getattr(self, "margin", np.inf), float(abs(a - b)))
